@@ -38,29 +38,40 @@ TRUSTED = [
 # corr = operation classes whose model/implementation disagreement concerns this property,
 # oracles = oracle tags evaluated on the implementation that decide this property
 PROPS = {
-    "C01": dict(suites=[("hist", 60, 4, 1500, 16), ("scope", 4, 8, 6, 16), ("cells", 1, 16, 2, 16)], corr=["search"], oracles=["C01"]),
-    "C02": dict(suites=[("hist", 60, 4, 1500, 16), ("scope", 4, 8, 6, 16), ("splitopt", 1, 4, 2, 16)], corr=["search"], oracles=["C02"]),
-    "C03": dict(suites=[("hist", 60, 4, 1500, 16), ("scope", 4, 8, 6, 16), ("cells", 1, 16, 2, 16), ("prio", 1, 2, 2, 8), ("sibs", 1, 4, 3, 16)], corr=["search"], oracles=["C03"]),
-    "C04": dict(suites=[("parse", 5, 4, 7, 16), ("dup", 1, 4, 2, 4), ("groups", 100, 4, 1500, 16), ("regs", 1, 4, 2, 8)], corr=["parse", "search", "display"], oracles=["C04", "C11", "C01", "C02", "C03"]),
-    "C05": dict(suites=[("hist", 100, 4, 1500, 16), ("orders", 1, 4, 4, 16), ("splitopt", 1, 4, 2, 16)], corr=["search", "display", "dump"], oracles=["FUN"]),
-    "C06": dict(suites=[("hist", 100, 4, 1500, 16), ("scope", 4, 8, 6, 16), ("splitopt", 1, 4, 2, 16), ("sibs", 1, 4, 3, 16)], corr=["search"], oracles=["C06", "C02"]),
-    "C07": dict(suites=[("parse", 5, 4, 7, 16), ("junk", 100, 4, 1500, 16), ("hist", 50, 4, 1500, 16), ("family", 50, 4, 1500, 16), ("regs", 1, 4, 2, 8), ("dup", 1, 4, 2, 8)], corr=["checked", "parse"], oracles=["C07"]),
-    "C08": dict(suites=[("hist", 100, 4, 1500, 16), ("dup", 1, 4, 2, 8), ("pairs", 1, 4, 2, 16)], corr=["insert", "search"], oracles=["C08", "C02"]),
-    "C09": dict(suites=[("hist", 100, 4, 1500, 16), ("dup", 1, 4, 2, 8), ("family", 50, 4, 1500, 16), ("pairs", 1, 4, 2, 16), ("clonescope", 1, 4, 2, 16)], corr=["delete", "search", "display", "dump"], oracles=["C09", "C01", "C02", "FUN"]),
-    "C10": dict(suites=[("hist", 100, 4, 1500, 16), ("dup", 1, 4, 2, 8)], corr=["insert", "delete", "search", "display", "dump"], oracles=["FUN", "C09"]),
+    "C01": dict(suites=[("hist", 60, 4, 1500, 16), ("scope", 4, 8, 6, 16), ("cells", 1, 16, 2, 16), ("kin", 40, 4, 1000, 16)], corr=["search", "stored"], oracles=["C01"]),
+    "C02": dict(suites=[("hist", 60, 4, 1500, 16), ("scope", 4, 8, 6, 16), ("splitopt", 1, 4, 2, 16), ("kin", 40, 4, 1000, 16)], corr=["search"], oracles=["C02"]),
+    "C03": dict(suites=[("hist", 60, 4, 1500, 16), ("scope", 4, 8, 6, 16), ("cells", 1, 16, 2, 16), ("prio", 1, 2, 2, 8), ("sibs", 1, 4, 3, 16), ("grouprank", 1, 4, 2, 16), ("kin", 40, 4, 1000, 16)], corr=["search", "stored"], oracles=["C03"]),
+    "C04": dict(suites=[("parse", 5, 4, 7, 16), ("dup", 1, 4, 2, 4), ("groups", 100, 4, 1500, 16), ("regs", 1, 4, 2, 8), ("grouprank", 1, 4, 2, 16)], corr=["parse", "search", "display", "stored"], oracles=["C04", "C11", "C01", "C02", "C03"]),
+    "C05": dict(suites=[("hist", 100, 4, 1500, 16), ("orders", 1, 4, 4, 16), ("splitopt", 1, 4, 2, 16), ("kin", 40, 4, 1000, 16)], corr=["search", "display", "dump"], oracles=["FUN"]),
+    "C06": dict(suites=[("hist", 100, 4, 1500, 16), ("scope", 4, 8, 6, 16), ("splitopt", 1, 4, 2, 16), ("sibs", 1, 4, 3, 16), ("kin", 40, 4, 1000, 16)], corr=["search"], oracles=["C06", "C02"]),
+    "C07": dict(suites=[("parse", 5, 4, 7, 16), ("junk", 100, 4, 1500, 16), ("hist", 50, 4, 1500, 16), ("family", 50, 4, 1500, 16), ("regs", 1, 4, 2, 8), ("dup", 1, 4, 2, 8), ("kinfamily", 40, 4, 1000, 16), ("long", 1, 4, 2, 8)], corr=["checked", "parse"], oracles=["C07"]),
+    "C08": dict(suites=[("hist", 100, 4, 1500, 16), ("dup", 1, 4, 2, 8), ("dupsib", 1, 4, 2, 8), ("pairs", 1, 4, 2, 16), ("kin", 40, 4, 1000, 16)], corr=["insert", "search"], oracles=["C08", "C02"]),
+    "C09": dict(suites=[("hist", 100, 4, 1500, 16), ("dup", 1, 4, 2, 8), ("family", 50, 4, 1500, 16), ("pairs", 1, 4, 2, 16), ("clonescope", 1, 4, 2, 16), ("dupsib", 1, 4, 2, 8), ("kin", 40, 4, 1000, 16)], corr=["delete", "search", "display", "dump"], oracles=["C09", "C01", "C02", "FUN"]),
+    "C10": dict(suites=[("hist", 100, 4, 1500, 16), ("dup", 1, 4, 2, 8), ("dupsib", 1, 4, 2, 8), ("kin", 40, 4, 1000, 16)], corr=["insert", "delete", "search", "display", "dump"], oracles=["FUN", "C09"]),
     "C11": dict(suites=[("parse", 5, 4, 7, 16), ("parsefocus", 7, 4, 9, 16), ("regs", 1, 4, 2, 8)], corr=["parse", "insert"], oracles=["C11"]),
     "C12": dict(suites=[("scope1", 5, 4, 6, 16), ("single", 300, 4, 6000, 16)], corr=["search"], oracles=["C12"]),
     "C13": dict(suites=[("hist", 60, 4, 1500, 16), ("fromstr", 1, 1, 4, 4), ("cells", 1, 16, 2, 16), ("regs", 1, 4, 2, 8)], corr=["constraint", "insert", "search"], oracles=["C13", "C02", "C03"]),
-    "C14": dict(suites=[("parse", 5, 4, 7, 16), ("parsefocus", 7, 4, 9, 16), ("regs", 1, 4, 2, 8)], corr=["parse", "render"], oracles=["C14"]),
-    "C15": dict(suites=[("ascii", 100, 4, 1500, 16), ("splitopt", 1, 4, 2, 16), ("prio", 1, 4, 2, 8)], corr=["display", "dump"], oracles=["C15"]),
-    "C16": dict(suites=[("family", 100, 4, 1500, 16), ("clonescope", 1, 4, 2, 16), ("clonerank", 1, 8, 2, 16)], corr=["insert", "delete", "search", "display", "clone", "dump"], oracles=["FUN", "C09", "C08", "C03"]),
-    "C17": dict(suites=[("oci", 4, 8, 5, 16)], corr=["search"], oracles=["C17"]),
+    "C14": dict(suites=[("parse", 5, 4, 7, 16), ("parsefocus", 7, 4, 9, 16), ("regs", 1, 4, 2, 8)], corr=["parse", "render-template"], oracles=["C14"]),
+    "C15": dict(suites=[("ascii", 100, 4, 1500, 16), ("splitopt", 1, 4, 2, 16), ("prio", 1, 4, 2, 8), ("hist", 60, 4, 1500, 16), ("kin", 40, 4, 1000, 16)], corr=["display", "dump"], oracles=["C15"]),
+    "C16": dict(suites=[("family", 100, 4, 1500, 16), ("clonescope", 1, 4, 2, 16), ("clonerank", 1, 8, 2, 16), ("dupsib", 1, 4, 2, 8), ("kinfamily", 40, 4, 1000, 16)], corr=["insert", "delete", "search", "display", "clone", "dump", "stored"], oracles=["FUN", "C09", "C08", "C03"]),
+    "C17": dict(suites=[("oci", 4, 8, 5, 16)], corr=["search", "nameck"], oracles=["C17"]),
     "C18": dict(suites=[("threads", 30, 2, 600, 8), ("sibs", 1, 4, 3, 16)], corr=["search", "display"], oracles=["C18", "FUN"]),
-    "C19": dict(suites=[("hist", 100, 4, 1500, 16), ("pairs", 1, 4, 2, 16), ("regs", 1, 4, 2, 8)], corr=["insert", "delete", "constraint", "render"], oracles=["C19", "C08", "C09"]),
+    "C19": dict(suites=[("hist", 100, 4, 1500, 16), ("pairs", 1, 4, 2, 16), ("regs", 1, 4, 2, 8), ("kin", 40, 4, 1000, 16)], corr=["insert", "delete", "constraint", "render"], oracles=["C19", "C08", "C09"]),
 }
 
 FACTS = {"C19": ["error_formats", "conflict_list_format"], "C13": ["builtin_impls", "builtin_checks", "builtin_registrations"], "C11": ["invalid_param_chars"], "C03": ["search_kind_order"],
          "C15": ["display_kind_order"], "C18": ["interior_mutability"], "C17": ["oci_routes", "oci_name_pattern"], "C07": ["panic_sites"]}
+# Tripwires: syntactic facts about the source that no theorem needs (they say nothing about the model) and that a
+# behaviour-preserving rewrite changes: the order in which `Node::search` / `Display` mention the child kinds, and the per-file
+# count of index / unwrap / subtraction tokens. A deviation from the value pinned here is not a verdict; it makes the check
+# run its suites once more, larger and with another seed (DESIGN 12.9), and the evidence records it.
+TRIPWIRES = {
+    "C03": {"search_kind_order": [0, 1, 2, 3, 4, 5, 6]},
+    "C15": {"display_kind_order": [0, 1, 2, 3, 4, 5, 6]},
+    "C07": {"panic_sites": [["src/parser.rs", 11, 0, 14], ["src/router.rs", 0, 17, 0], ["src/node/insert.rs", 8, 0, 0], ["src/node/find.rs", 3, 0, 0],
+                            ["src/node/delete.rs", 6, 0, 0], ["src/node/search.rs", 21, 1, 2], ["src/node/optimize.rs", 0, 0, 0], ["src/node/display.rs", 0, 0, 7],
+                            ["src/nodes.rs", 2, 0, 0], ["src/errors/template.rs", 0, 0, 0]]},
+}
 # which measured count is "distinct and non-trivial" for a property, and why
 NT = {
     "fit2": "distinct (live set, path) pairs for which at least two live routes fit the path",
@@ -101,7 +112,7 @@ def build_harness(log):
     """returns (ok, features dict, output). Feature fallbacks: the hook (needs --cfg wayfind_verif and the names the
     hook touches) and the compile-time Send/Sync assertion are each dropped only if the build fails with them."""
     with Lock(".cargo.lock"):
-        attempts = [(["hook", "sendsync"], True), (["hook"], True), (["sendsync"], False), ([], False)]
+        attempts = [(["hook", "hookdata", "sendsync"], True), (["hook", "sendsync"], True), (["hook", "hookdata"], True), (["hook"], True), (["sendsync"], False), ([], False)]
         first_out = None
         for feats, cfg in attempts:
             cmd = ["cargo", "build", "--offline", "--no-default-features"]
@@ -111,7 +122,7 @@ def build_harness(log):
             if first_out is None:
                 first_out = out
             if rc == 0:
-                if feats != ["hook", "sendsync"]:
+                if feats != ["hook", "hookdata", "sendsync"]:
                     log.append("harness built with features " + str(feats))
                 return True, dict(hook="hook" in feats, sendsync="sendsync" in feats, first_output=first_out), out
         return False, dict(hook=False, sendsync=False, first_output=first_out), first_out
@@ -393,6 +404,13 @@ def main():
 
     suites = [s for s in spec["suites"] if s[0] in implemented_suites()]
     corr, oracles = set(spec["corr"]), set(spec["oracles"])
+    tripped = {}
+    for name, pinned in TRIPWIRES.get(pid, {}).items():
+        now = lean["generated"].get("_values", {}).get(name)
+        if now != pinned:
+            tripped[name] = dict(pinned=pinned, now=now)
+    if tripped:
+        log.append("tripwire(s) " + ", ".join(tripped) + " deviate from the pinned value: suites also run at the escalated size")
 
     def relevant(kind, x):
         if kind == "O":
@@ -422,13 +440,19 @@ def main():
             size, chunks = (qs, qc) if tier == "quick" else (ts, tc)
             for c in range(chunks):
                 jobs.append((suite, seed, size, c, chunks))
+            if tripped and tier == "quick":
+                # escalation: every suite once more with another seed — random suites at four times the quick size,
+                # enumerations (size = a length or a level) one step deeper — bounded so that a quick check stays quick
+                esize = min(ts, qs * 4) if qs >= 20 else min(ts, qs + 1)
+                for c in range(tc):
+                    jobs.append((suite, seed + 7, esize, c, tc))
         with ThreadPoolExecutor(max_workers=min(16, max(1, len(jobs)))) as ex:
             futs = []
             for j in jobs:
                 if j[0] == "corpus":
                     futs.append(ex.submit(judge_ops, j[1], os.path.join(j[1], "ops.txt")))
                 else:
-                    futs.append(ex.submit(run_chunk, work, j[0], j[1], j[2], j[3], j[4], tier))
+                    futs.append(ex.submit(run_chunk, work, j[0], j[1], j[2], j[3], j[4], f"{tier}{j[1]}"))
             results = [f.result() for f in futs]
 
     stats = {}
@@ -535,6 +559,7 @@ def main():
         checker_cmd=lean["checker_cmd"], trusted_base=TRUSTED,
         theorems=theorem_names(pid), proof_failures=lean["failures"],
         translator_facts={k: lean["generated"].get(k, "unavailable") for k in FACTS.get(pid, [])},
+        tripwires={k: ("as pinned" if k not in tripped else f"deviates (now {tripped[k]['now']}); suites escalated (4x random histories / one enumeration level deeper, other seed)") for k in TRIPWIRES.get(pid, {})},
         evaluations=evaluations, distinct_nontrivial=stats.get("nt." + NT_OF[pid], 0),
         rule="operations executed on the real crate and replayed on the Lean model; distinct_nontrivial = " + NT[NT_OF[pid]] +
              " (counted by the Lean driver per chunk and summed; chunks of an enumeration are disjoint)",
